@@ -1440,6 +1440,17 @@ _GATES = [("perf", "enabled"), ("t2", "hybrid", "enabled"), ("t2", "quality", "e
           ("graph", "split", "enabled"), ("graph", "promotion", "enabled"), ("perf", "snapshots", "delta_mode")]
 
 _FREE_PATHS = sorted(p for p, sp in LEAVES.items() if sp[0] == "free")
+_FREE_NEAR = {
+    ("t1", "decay"): [{"floor": "0.05"}, {"mode": "exp_floor", "rate": "0.6", "floor": "0.05"}, {"rate": "0.5"}, {"mode": "attn_quad", "alpha": "2"},
+                      {"mode": "exp_floor", "rate": 1, "floor": 0}, {"mode": "exp_floor", "rate": True, "floor": False}, {"floor": "1e-3"},
+                      {"mode": "attn_quad", "alpha": 1}, {"mode": "exp_floor", "floor": " 0.1 "}],
+    ("t1", "edge_type_mult"): [{"supports": "1.0", "associates": "0.6", "contradicts": "0.8"}, {"supports": 1, "associates": 0, "contradicts": True},
+                               {"supports": "1"}, {"associates": " 0.5"}],
+    ("t1", "radius_cap"): ["2", 2.0, True, " 1 ", "0"],
+    ("k_surface",): ["8", 8.0, True],
+    ("t2", "tiers"): [("exact_semantic",), ["exact_semantic", "exact_semantic"], "exact_semantic"],
+}
+_FREE_NEAR = {p: v for p, v in _FREE_NEAR.items() if p in LEAVES}
 _WORLD_TEXTS = ["apple pear", "kiwi", "apple", "pear fig APPLE", "zzz", ""]
 
 
@@ -1466,6 +1477,9 @@ def runnable_cases(draw):
         if kind == "free":
             p = draw(st.sampled_from(_FREE_PATHS))
             v = draw(st.sampled_from(WRONG + SPECIAL + [{1: 1, "a": 2}, {None: 1}, {"mode": 5}, {"rate": "x"}, {"supports": "x"}, ["bogus", 1], [None]]))
+            if p in _FREE_NEAR and draw(st.booleans()):
+                # almost-documented spellings (numbers as strings / ints / bools) a YAML author produces
+                v = draw(st.sampled_from(_FREE_NEAR[p]))
         elif kind == "validated":
             p = draw(st.sampled_from(_SOLO_PATHS))
             v = draw(st.sampled_from(WRONG + SPECIAL))
@@ -1473,6 +1487,9 @@ def runnable_cases(draw):
             p = draw(st.sampled_from([q for q in SECTION_PATHS if q]))
             v = draw(st.sampled_from(SECTION_REPLACEMENTS))
         lenient.append([list(p), enc(copy.deepcopy(v))])
+    if draw(st.sampled_from([True, False, False])):
+        p = draw(st.sampled_from(sorted(_FREE_NEAR)))
+        lenient.append([list(p), enc(copy.deepcopy(draw(st.sampled_from(_FREE_NEAR[p]))))])
     # world: fixed non-trivial core + drawn variation
     w_ab = draw(st.sampled_from([0.9, 1.0, 0.5, -0.5]))
     rel = draw(st.sampled_from(["supports", "associates", "contradicts", "weird"]))
